@@ -98,3 +98,44 @@ fn r2_rt_add_direct() {
     kani::cover!(!r);
     std::mem::forget(rt);
 }
+
+#[kani::proof]
+#[kani::stub(std::time::Instant::now, clock::now)]
+#[kani::unwind(22)]
+fn e2_full_bucket_stale_head_only() {
+    // 20 concrete-id nodes created at symbolic (non-decreasing) instants, then "now"
+    let mut nodes = Vec::with_capacity(20);
+    let mut t: u64 = 0;
+    let mut ages = [0u64; 20];
+    for i in 0..20u8 {
+        let dt: u64 = kani::any();
+        kani::assume(dt <= 2000);
+        t += dt;
+        clock::set(t);
+        ages[i as usize] = t;
+        let mut a = [0u8; 20];
+        a[0] = 0x80; a[1] = i + 1;
+        nodes.push(Node::new(Id::from(a), SocketAddrV4::new([10, 0, 1, i].into(), 6881)));
+    }
+    let dt: u64 = kani::any();
+    kani::assume(dt <= 2000);
+    let now = t + dt;
+    clock::set(now);
+    let mut b = KBucket { nodes };
+    let mut inc = [0u8; 20];
+    inc[0] = 0x80; inc[1] = 99;
+    let r = b.add(Node::new(Id::from(inc), SocketAddrV4::new([10, 0, 2, 1].into(), 6881)));
+    let head_age = now - ages[0];
+    assert!(b.nodes.len() == 20);
+    assert!(r == (head_age > 900));
+    if !r {
+        // unchanged: first id still the old head
+        assert!(b.nodes[0].id().as_bytes()[1] == 1);
+    } else {
+        assert!(b.nodes[0].id().as_bytes()[1] == 2);
+        assert!(b.nodes[19].id().as_bytes()[1] == 99);
+    }
+    kani::cover!(r);
+    kani::cover!(!r);
+    std::mem::forget(b);
+}
